@@ -102,6 +102,15 @@ func storedFormOK(stored, orig []byte) (bool, string) {
 	return true, ""
 }
 
+// snappyStream is the framed snappy encoding of v computed by the harness' own use of the library.
+func snappyStream(v []byte) []byte {
+	var b bytes.Buffer
+	w := snappy.NewBufferedWriter(&b)
+	w.Write(v)
+	w.Close()
+	return b.Bytes()
+}
+
 func decodeSnappyStream(b []byte) ([]byte, error) {
 	r := snappy.NewReader(bytes.NewReader(b))
 	var out bytes.Buffer
@@ -380,6 +389,38 @@ func values(args []string) error {
 		}
 	}
 	w.Write(valResult{Case: fmt.Sprintf("%d random values", *n), OK: bad == 0})
+	// boundary of "strictly shorter": noise followed by a run of k identical bytes sweeps the size of the framed form
+	// across the size of the value (frame longer / equal / shorter by a few bytes)
+	sweepBad, band := 0, 0
+	for _, noise := range []int{8, 16, 64, 200, 1000} {
+		nb := make([]byte, noise)
+		rnd.Read(nb)
+		if bytes.HasPrefix(nb, hdr) {
+			nb[0] ^= 0xff
+		}
+		for k := 0; k < 200; k++ {
+			v := append(append([]byte{}, nb...), bytes.Repeat([]byte{'r'}, k)...)
+			framed := len(hdr) + len(snappyStream(v))
+			if d := framed - len(v); d >= -8 && d <= 8 {
+				band++
+			}
+			c := predis.VerifCompressValue(v)
+			ok, why := storedFormOK(c, v)
+			if ok && !bytes.Equal(c, v) {
+				if d, err := predis.VerifDecompressValue(c); err != nil || !bytes.Equal(d, v) {
+					ok, why = false, fmt.Sprintf("decompress(compress(v)) != v (%v)", err)
+				}
+			}
+			if ok && bytes.Equal(c, v) && framed < len(v) {
+				ok, why = false, fmt.Sprintf("a %d byte value whose framed form has %d bytes was not compressed", len(v), framed)
+			}
+			if !ok {
+				sweepBad++
+				w.Write(valResult{Case: fmt.Sprintf("break-even noise=%d run=%d framed-len=%+d", noise, k, framed-len(v)), Why: why})
+			}
+		}
+	}
+	w.Write(valResult{Case: fmt.Sprintf("break-even sweep (%d values within 8 bytes of the boundary)", band), OK: sweepBad == 0 && band > 20})
 	// banned commands are rejected locally while compression is enabled
 	sut.FastRefresh()
 	cl, err := simredis.NewCluster(2, 0)
